@@ -159,6 +159,9 @@ _sm3_ctx_mgr_submit_base(ISAL_SM3_HASH_CTX_MGR *mgr, ISAL_SM3_HASH_CTX *ctx, con
                 return ctx;
         }
 
+        // If we made it here, there were no errors during this call to submit
+        ctx->error = ISAL_HASH_CTX_ERROR_NONE;
+
         if (flags == ISAL_HASH_FIRST) {
                 sm3_init(ctx, buffer, len);
                 sm3_update(ctx, buffer, len);
